@@ -94,6 +94,8 @@ def check_case(case):
         qs += [T[k] + (T[k + 1] - T[k]) * dtype(0.25), T[k] + (T[k + 1] - T[k]) * dtype(0.875)]
     tmin, tmax = T.min(), T.max()
     outside = [tmin - 1, tmax + 1, tmin - dtype(1e-3), tmax + dtype(1e-3)]
+    if case["dense"] and n == 1:
+        qs, outside = [], []       # no dense solution exists before the first step: no claim
     for q in qs + outside:
         q = dtype(q)
         r.n += 1
